@@ -531,12 +531,13 @@ pub fn run(cfg: &Cfg) -> Outcome {
 
 fn far_instant(base: Instant) -> Instant {
     let mut cur = base;
-    let mut stepd = Duration::from_secs(1 << 40);
-    while stepd > Duration::from_secs(1) {
-        match cur.checked_add(stepd) {
-            Some(n) => cur = n,
-            None => stepd /= 2,
+    // binary descent: the largest representable instant in about 130 additions
+    let mut stepd = Duration::from_secs(1 << 62);
+    while stepd >= Duration::from_secs(1) {
+        if let Some(n) = cur.checked_add(stepd) {
+            cur = n;
         }
+        stepd /= 2;
     }
     cur
 }
